@@ -116,10 +116,17 @@ def run(ctx, replay=None):
             else:
                 l2, r2 = l, rr
             jobs.append((l2, r2, forms[(i + j) % len(forms)] if (l and rr) else 'array'))
+    # lines that end in (or are) a bare CR: the CR belongs to a line end only when an LF follows it, so as an array element or as
+    # the last line of a text it is part of the line (round 8: a splitter stripping a trailing CR from every line went unnoticed)
+    crlists = [list(t) for k in range(0, 3) for t in itertools.product(['a', 'a\r', '\r'], repeat=k)]
+    for l in crlists:
+        for rr in crlists:
+            for fm in ('array', 'lf', 'crlf', 'parts'):
+                jobs.append((l, rr, fm))
     nexh = len(jobs)
     for _ in range(ctx.pick(1500, 20000)):
         k = rnd.randint(0, 40)
-        base = [rnd.choice(['alpha', 'beta', 'gamma', '', 'x y', 'delta']) for _ in range(k)]
+        base = [rnd.choice(['alpha', 'beta', 'gamma', '', 'x y', 'delta', 'alpha\r']) for _ in range(k)]
         other = list(base)
         for _ in range(rnd.randint(0, 6)):
             if other and rnd.random() < 0.5:
